@@ -198,11 +198,11 @@ def resolveGlob (v : Version) (glob : Str) (recursive : Bool) : List LPath :=
   let g0 := trimLeadingSlashes glob
   let g := if g0.isEmpty then ['*'] else g0
   let trailing := g.getLast? == some '/'
-  let files := (AL.keys v.state).filter (fun p => globMatch true g p)
+  let files := (AL.keys v.state).filter (fun p => globMatchU true g p)
   let viaDirs :=
     if recursive then
       v.logicalDirs.flatMap (fun d =>
-        if (trailing && globMatch true g (d ++ ['/'])) || (!trailing && globMatch true g d)
+        if (trailing && globMatchU true g (d ++ ['/'])) || (!trailing && globMatchU true g d)
         then v.pathsWithPrefix d else [])
     else []
   (files ++ viaDirs).eraseDups
@@ -210,7 +210,7 @@ def resolveGlob (v : Version) (glob : Str) (recursive : Bool) : List LPath :=
 /-- `resolve_glob_to_dirs` (inventory.rs:755-774) -/
 def resolveGlobToDirs (v : Version) (glob : Str) : List Str :=
   let g := trimLeadingSlashes glob
-  v.logicalDirs.filter (fun d => globMatch true g d)
+  v.logicalDirs.filter (fun d => globMatchU true g d)
 
 structure IntAcc where
   toMove : List (LPath × LPath)
